@@ -63,7 +63,7 @@ def gen_plan(tape, cfg):
     for _ in range(tape.rint(30, 120, "nops")):
         k = tape.weighted([(10, "build"), (2, "illtyped"), (2, "simplify"), (2, "substitute"), (3, "normalize"),
                            (2, "const"), (2, "eqhash"), (1, "collapse"), (1, "quant_order"), (1, "normalize_clash"),
-                           (1, "builtin_named_sort")], "op")
+                           (1, "builtin_named_sort"), (1, "array_subst")], "op")
         o = {"op": k, "client": tape.draw(nclients, "client"), "env": tape.draw(nenv, "env"),
              "i": tape.draw(len(pool), "formula")}
         if k == "build":
@@ -171,6 +171,12 @@ def build_route(t, env, route, spell, varargs):
             return {"zext": mgr.BVZExt, "sext": mgr.BVSExt, "rol": mgr.BVRol, "ror": mgr.BVRor}[op](x, t[1])
         return bp.build(t, env)
     a = [build_route(x, env, route, spell, varargs) for x in t[1:]]
+    if op in ("bvshl", "bvlshr", "bvashr") and t[2][0] == "bv" and spell % 2 == 1:
+        # documented: the shift amount may be given as a Python integer
+        amount = int(t[2][1])
+        if route == "infix" and op in ("bvshl", "bvlshr"):
+            return (a[0] << amount) if op == "bvshl" else (a[0] >> amount)
+        return {"bvshl": mgr.BVLShl, "bvlshr": mgr.BVLShr, "bvashr": mgr.BVAShr}[op](a[0], amount)
     if route == "shortcut":
         import pysmt.shortcuts as sc
         tab = {"and": sc.And, "or": sc.Or, "+": sc.Plus, "*": sc.Times}
@@ -287,6 +293,22 @@ def _mgr_node(mgr, t, a, env):
     if op in strops:
         return strops[op]()
     raise ValueError("c04: no manager route for %r" % (op,))
+
+
+def _bp_subst(t, sym, val):
+    """blueprint-level substitution of a symbol by a term"""
+    if t[0] == "sym":
+        return val if (t[1] == sym[1]) else t
+    if t[0] in bp.LEAVES:
+        return t
+    if t[0] == "app":
+        return t[:4] + [_bp_subst(x, sym, val) for x in t[4:]]
+    if t[0] in bp.QUANT:
+        return t
+    if t[0] == "arrayval":
+        return ["arrayval", t[1], _bp_subst(t[2], sym, val), [[_bp_subst(k_, sym, val), _bp_subst(v_, sym, val)] for k_, v_ in t[3]]]
+    base = 1 + bp.PARAM_OPS.get(t[0], 0)
+    return t[:base] + [_bp_subst(x, sym, val) for x in t[base:]]
 
 
 # expected node type / shape for constructors that are not rewritten
@@ -477,8 +499,19 @@ def execute(plan, tape):
                             and not bp.is_usort(x[2])]
                     if not syms:
                         continue
-                    s0 = syms[0]
-                    r = f.substitute({bp.build(s0, env): bp.build(richgen.leaf_const(tape, s0[2]), env)})
+                    s0 = syms[tape.draw(len(syms), "subst.which")]
+                    cval = richgen.leaf_const(tape, s0[2])
+                    r = f.substitute({bp.build(s0, env): bp.build(cval, env)})
+                    # substitution rebuilds the formula with the manager's constructors: the result is
+                    # the very object obtained by building the substituted blueprint directly
+                    t2 = _bp_subst(t, s0, cval)
+                    if not richgen.has_quant(t):
+                        direct = bp.build(t2, env)
+                        if direct is not r:
+                            raise Violation("C04:substitute-vs-rebuild",
+                                            "%s: substitute({%s: %s}) returned %s, building the substituted formula gives %s" %
+                                            (where, s0[1], bp.pretty(cval), _s(r), _s(direct)))
+                        probe("substitute_equals_rebuild")
                 register(ei, r, o["client"], k, step, where)
                 trace.append((k, o["client"], ei))
             elif k == "const":
@@ -544,6 +577,32 @@ def execute(plan, tape):
                     if iv is c0 or iv == c0:
                         raise Violation("C04:real-int-confused", "%s: Real(%s) and Int(%s) are one object" % (where, want[1], want[1]))
                 trace.append(("const", kind))
+            elif k == "array_subst":
+                import pysmt.typing as T
+                x, y, z = [mgr.Symbol(n, T.INT) for n in ("as_x", "as_y", "as_z")]
+                arr = mgr.Array(T.INT, x, {mgr.Int(1): y, mgr.Int(2): z, mgr.Int(5): mgr.Int(9)})
+                register(ei, arr, o["client"], "array", step, where)
+                # an assignment that becomes equal to the default disappears, as in a direct construction
+                got = arr.substitute({y: x})
+                want = mgr.Array(T.INT, x, {mgr.Int(2): z, mgr.Int(5): mgr.Int(9)})
+                if got is not want:
+                    raise Violation("C04:substitute-vs-rebuild",
+                                    "%s: %s with as_y := as_x gave %s, the directly built array value is %s" %
+                                    (where, _s(arr), _s(got), _s(want)))
+                # a rewritten index keeps the canonical order of assignments
+                got2 = arr.substitute({mgr.Int(1): mgr.Int(7), mgr.Int(5): mgr.Int(0)})
+                want2 = mgr.Array(T.INT, x, {mgr.Int(7): y, mgr.Int(2): z, mgr.Int(0): mgr.Int(9)})
+                register(ei, got2, o["client"], "array", step, where)
+                if got2 is not want2:
+                    raise Violation("C04:substitute-vs-rebuild",
+                                    "%s: re-indexed array value %s is not the directly built %s" % (where, _s(got2), _s(want2)))
+                for idx, val in ((mgr.Int(7), y), (mgr.Int(2), z), (mgr.Int(0), mgr.Int(9)), (mgr.Int(4), x)):
+                    if got2.array_value_get(idx) is not val:
+                        raise Violation("C04:accessor:array-value-get",
+                                        "%s: %s.array_value_get(%s) = %s, expected %s" %
+                                        (where, _s(got2), idx, got2.array_value_get(idx), val))
+                probe("array_value_substitution")
+                trace.append(("array_subst",))
             elif k == "normalize_clash":
                 # the target environment already holds same-named symbols of ANOTHER type such that
                 # the re-typed formula would still type-check: the copy must be refused or be faithful
